@@ -7,7 +7,7 @@
 ID=$1; shift
 cd "$VERIF_DIR"
 need_race=""
-case "$ID" in C07|C08|C09|C10|C11|C12|C13|C16|C18|C19) need_race=race;; esac
+case "$ID" in C07|C08|C09|C10|C11|C12|C13|C16|C18|C19|C20) need_race=race;; esac
 if ! out=$(scripts/build.sh $need_race 2>&1); then
   echo "$out" | tail -40
   echo "BROKEN: harness does not build against /repo"
